@@ -328,6 +328,7 @@ def decide(prop, plan, tier, seed, merged, wall):
     os.makedirs(rdir, exist_ok=True)
     lines = []
     confirmed = 0
+    unconfirmed = []
     for n, v in enumerate(new[:10]):
         rj = dict(v.get("replay") or {})
         rj["_step"] = v.get("_step")
@@ -354,12 +355,23 @@ def decide(prop, plan, tier, seed, merged, wall):
                 r2 = run_engine(binp, step.get("prop", prop), step.get("tier", tier), seed, rpt2, step.get("extra", []),
                                 step.get("timeout", 3600 if tier == "quick" else 6 * 3600), step_env(step))
                 if not any(x.get("key") == v["key"] for x in r2.get("violations", [])):
-                    raise Machinery("violation %s neither replays (exit codes %s) nor recurs when the exploration is re-run; see %s" % (v["key"], outcomes, rpath))
+                    # Not reproducible (the free-running sampling lanes can produce such reports: they
+                    # observe real races). It is never reported as a verdict on its own; if other
+                    # violations of this run are confirmed it is dropped with a note, otherwise the run
+                    # is a machinery failure.
+                    unconfirmed.append("violation %s neither replays (exit codes %s) nor recurs when the exploration is re-run; see %s" % (v["key"], outcomes, rpath))
+                    continue
                 rj["replay_note"] = "single-history replay exit codes %s; confirmed by re-running the exploration" % outcomes
                 with open(rpath, "w") as f:
                     json.dump(rj, f, indent=1)
         confirmed += 1
         lines.append("VIOLATION property=%s replay=%s  # %s: %s" % (prop, rpath, v["key"], v["summary"]))
+    if unconfirmed:
+        if confirmed == 0:
+            raise Machinery(unconfirmed[0])
+        merged["notes"].extend("not reproducible, not reported: " + u for u in unconfirmed)
+        unconf_keys = set(u.split()[1] for u in unconfirmed)
+        new = [v for v in new if v["key"] not in unconf_keys]
     kf = []
     for k, v in sorted(known_hit.items()):
         kf.append("KNOWN-FINDING: property=%s %s (%s)" % (prop, k, known[k] or v["summary"]))
